@@ -24,7 +24,7 @@ type c13Shape struct {
 func c13Shapes(tier string) []c13Shape {
 	s := []c13Shape{
 		{"empty", 0, 4, "", false}, {"one", 1, 4, "", false}, {"two", 2, 4, "", false}, {"five", 5, 4, "", false}, {"five-holes", 5, 4, "3,4", false},
-		{"thirty", 30, 4, "", false}, {"thirtyone", 31, 4, "", false}, {"thirtythree", 33, 4, "", false}, {"seventy-alt", 70, 4, "alt", false}, {"five-long", 5, 111, "", false},
+		{"thirty", 30, 4, "", false}, {"thirtyone", 31, 4, "", false}, {"thirtythree", 33, 4, "", false}, {"seventy-alt", 70, 4, "alt", false}, {"five-long", 5, 111, "", false}, {"five-max", 5, 112, "", false},
 	}
 	// directories whose own block tree goes beyond the direct blocks (8 blocks = 256 entries) and beyond the
 	// indirect block (520 blocks = 16640 entries)
@@ -384,7 +384,7 @@ func init() {
 
 func C13(r *report.Report, tier string) {
 	shapes := c13Shapes(tier)
-	r.Rule = "per directory shape (empty, 1/2/5 entries, freed slots in the middle, 30/31/32/33/70 entries around the block boundary, every other entry removed, names of 4 and 111 bytes): READDIR with every count from 0 to 64+13*(24+len) plus 4096 and 2^32-1, READDIRPLUS over a dircount x maxcount grid (step 1 near the reply-size thresholds, step 8 elsewhere, plus extremes); for each: the client loop passing back the last cookie until end-of-directory (hard cap of 80 calls); every call returns an entry or eof and makes progress; every entry present throughout is returned exactly once, nothing twice, nothing that never existed; file ids / handles / attributes equal LOOKUP+GETATTR (checked by the reference model); every cookie ever returned is passed back once more; for limits that yield 2..12 pages, at every page boundary one of {add a name, remove a listed name, remove a not-yet-listed name}; plus directories whose own block tree passes the direct blocks (300 entries, every fifth removed; thorough: also 300 without holes and 17000 entries = into the double-indirect tree) with a short list of limits (page cap = number of entries)"
+	r.Rule = "per directory shape (empty, 1/2/5 entries, freed slots in the middle, 30/31/32/33/70 entries around the block boundary, every other entry removed, names of 4, 111 and 112 (= name_max) bytes): READDIR with every count from 0 to 64+13*(24+len) plus 4096 and 2^32-1, READDIRPLUS over a dircount x maxcount grid (step 1 near the reply-size thresholds, step 8 elsewhere, plus extremes); for each: the client loop passing back the last cookie until end-of-directory (hard cap of 80 calls); every call returns an entry or eof and makes progress; every entry present throughout is returned exactly once, nothing twice, nothing that never existed; file ids / handles / attributes equal LOOKUP+GETATTR (checked by the reference model); every cookie ever returned is passed back once more; for limits that yield 2..12 pages, at every page boundary one of {add a name, remove a listed name, remove a not-yet-listed name}; plus directories whose own block tree passes the direct blocks (300 entries, every fifth removed; thorough: also 300 without holes and 17000 entries = into the double-indirect tree) with a short list of limits (page cap = number of entries)"
 	var jobs []interface{}
 	for _, s := range shapes {
 		jobs = append(jobs, s)
